@@ -53,6 +53,30 @@ fn main() {
             println!("{}", gen::ast::print_program(&g.prog, gen::ast::Layout::plain()));
             eprintln!("tags: {:?}", g.prog.tags);
         }
+        "compile-batch" => {
+            // one line per template: "<network> <tir hex>"; prints the payload hex (or ERR ...) per line
+            use tx3_tir::compile::Compiler as _;
+            let path = args.get(2).cloned().unwrap_or_else(|| usage());
+            let text = std::fs::read_to_string(&path).unwrap_or_default();
+            panics::install_hook();
+            for line in text.lines() {
+                let mut it = line.splitn(2, ' ');
+                let net = it.next().unwrap_or("0");
+                let hexs = it.next().unwrap_or("");
+                let out = panics::catch(|| {
+                    let bytes = hex::decode(hexs).map_err(|e| e.to_string())?;
+                    let t = tx3_tir::encoding::from_bytes(&bytes, tx3_tir::encoding::TirVersion::V1Beta0).map_err(|e| e.to_string())?;
+                    let pp = env::PP { mainnet: net == "1", ..Default::default() };
+                    let mut c = env::compiler(&pp);
+                    c.compile(&t).map(|c| hex::encode(c.payload)).map_err(|e| e.to_string())
+                });
+                match out {
+                    Ok(Ok(h)) => println!("{h}"),
+                    Ok(Err(e)) => println!("ERR {}", e.replace('\n', " ")),
+                    Err(p) => println!("PANIC {}", p.message.replace('\n', " ")),
+                }
+            }
+        }
         "check" => {
             let id = args.get(2).cloned().unwrap_or_else(|| usage());
             let Some(prop) = props::lookup(&id) else {
